@@ -8,13 +8,13 @@ namespace Clone
 /-- Same object up to the child lists. -/
 def SameBut (n m : Node) : Prop :=
   m.kind = n.kind ∧ m.name = n.name ∧ m.id = n.id ∧ m.attrs = n.attrs ∧ m.parent = n.parent ∧
-  m.vals = n.vals ∧ m.merged = n.merged
+  m.vals = n.vals ∧ m.merged = n.merged ∧ m.mattrs = n.mattrs
 
-theorem SameBut.refl (n : Node) : SameBut n n := ⟨rfl, rfl, rfl, rfl, rfl, rfl, rfl⟩
+theorem SameBut.refl (n : Node) : SameBut n n := ⟨rfl, rfl, rfl, rfl, rfl, rfl, rfl, rfl⟩
 theorem SameBut.trans {a b c : Node} (h1 : SameBut a b) (h2 : SameBut b c) : SameBut a c := by
-  obtain ⟨a1, a2, a3, a4, a5, a6, a7⟩ := h1
-  obtain ⟨b1, b2, b3, b4, b5, b6, b7⟩ := h2
-  exact ⟨b1.trans a1, b2.trans a2, b3.trans a3, b4.trans a4, b5.trans a5, b6.trans a6, b7.trans a7⟩
+  obtain ⟨a1, a2, a3, a4, a5, a6, a7, a8⟩ := h1
+  obtain ⟨b1, b2, b3, b4, b5, b6, b7, b8⟩ := h2
+  exact ⟨b1.trans a1, b2.trans a2, b3.trans a3, b4.trans a4, b5.trans a5, b6.trans a6, b7.trans a7, b8.trans a8⟩
 
 theorem cloneLoop_fields {rec} (hrec : RecSpec rec) (c : Nat) :
     ∀ (l : List Nat) (h h' : H), c < h.nN → cloneLoop rec h c l = (h', none) →
@@ -62,6 +62,7 @@ structure RootEq (h h' : H) (x c : Nat) (keep : Bool) : Prop where
   name : (h'.node c).name = (h.node x).name
   attrs : (h'.node c).attrs = (h.node x).attrs
   merged : (h'.node c).merged = (h.node x).merged
+  mattrs : (h'.node c).mattrs = (h.node x).mattrs   -- `_merged_attrs`: the SAME dict (copy.copy)
   parent : (h'.node c).parent = none
   idKept : keep = true → (h'.node c).id = (h.node x).id
   idFresh : keep = false → h.nextId ≤ (h'.node c).id ∧ (h'.node c).id < h'.nextId
@@ -80,7 +81,7 @@ theorem cloneBody_fields {rec} (hrec : RecSpec rec) (h : H) (x : Nat) (ch keep :
   · rename_i h4 hl4
     obtain ⟨sb4, nx4, nn4⟩ := loopOpt_fields hrec h.nN ch _ h3 h4 (by omega) hl4
     rw [n3] at sb4
-    obtain ⟨k4, na4, id4, at4, pa4, _, me4⟩ := sb4
+    obtain ⟨k4, na4, id4, at4, pa4, _, me4, ma4⟩ := sb4
     generalize hh5 : (if keep = true then h4 else newId h4 h.nN) = h5 at hb
     have n5 : SameBut { h4.node h.nN with id := (h5.node h.nN).id } (h5.node h.nN) := by
       rw [← hh5]; split
@@ -92,13 +93,13 @@ theorem cloneBody_fields {rec} (hrec : RecSpec rec) (h : H) (x : Nat) (ch keep :
       intro hk; rw [← hh5]; simp [hk, newId_node]
     have nx5 : h4.nextId ≤ h5.nextId := by rw [← hh5]; split <;> simp
     have nn5 : h5.nN = h4.nN := by rw [← hh5]; split <;> simp
-    obtain ⟨k5, na5, _, at5, pa5, _, me5⟩ := n5
-    simp only at k5 na5 at5 pa5 me5
+    obtain ⟨k5, na5, _, at5, pa5, _, me5, ma5⟩ := n5
+    simp only at k5 na5 at5 pa5 me5 ma5
     have fin : ∀ h7 : H, SameBut (h5.node h.nN) (h7.node h.nN) → h5.nextId ≤ h7.nextId → RootEq h h7 x h.nN keep := by
       intro h7 sb nx
-      obtain ⟨k7, na7, id7, at7, pa7, _, me7⟩ := sb
+      obtain ⟨k7, na7, id7, at7, pa7, _, me7, ma7⟩ := sb
       refine ⟨by rw [k7, k5, k4], by rw [na7, na5, na4], by rw [at7, at5, at4], by rw [me7, me5, me4],
-        by rw [pa7, pa5, pa4], fun hk => by rw [id7]; exact id5k hk, fun hk => ?_⟩
+        by rw [ma7, ma5, ma4], by rw [pa7, pa5, pa4], fun hk => by rw [id7]; exact id5k hk, fun hk => ?_⟩
       obtain ⟨a, b⟩ := id5f hk
       rw [id7, a]; omega
     split at hb
@@ -119,7 +120,7 @@ theorem cloneBody_fields {rec} (hrec : RecSpec rec) (h : H) (x : Nat) (ch keep :
 theorem cloneProp_fields (h : H) (x : Nat) (keep : Bool) :
     RootEq h (cloneProp h x keep).1 x (cloneProp h x keep).2 keep := by
   have s := cloneProp_spec h x keep
-  refine ⟨by rw [s.node], by rw [s.node], by rw [s.node], by rw [s.node], by rw [s.node],
+  refine ⟨by rw [s.node], by rw [s.node], by rw [s.node], by rw [s.node], by rw [s.node], by rw [s.node],
     fun hk => by rw [s.node]; simp [hk], fun hk => ?_⟩
   rw [s.node, s.nextId]; simp [hk]
 
